@@ -145,7 +145,53 @@ def oracle_run(args):
          if not balance_ok else "") + "; ".join(problems)
 
 
-ORACLES = {"whole_run": rc.oracle_whole_run, "force": oracle_force, "run": oracle_run}
+@safe_oracle
+def oracle_restart(args):
+    """an Ehrenfest run stopped in a mixed state, restarted from its log with Ehrenfest.restart and continued IS an Ehrenfest run:
+    same class, the label never changes, no hop events, and the logged potential is tr(rho H) in every continued snapshot"""
+    import mudslide
+    import tempfile
+    import shutil
+    rep = args.get("representation", "adiabatic")
+    model = mudslide.models.scattering_models[args["model"]](representation=rep)
+    k, K, dt = int(args["k"]), int(args["K"]), float(args["dt"])
+    tmp = None
+    problems = []
+    try:
+        kw = {}
+        if args.get("store") == "yaml":
+            tmp = tempfile.mkdtemp(prefix="verif-c08-")
+            kw["tracer"] = mudslide.YAMLTrace(base_name="t", location=tmp, log_pitch=int(args.get("pitch", 4)))
+        first = mudslide.Ehrenfest(model, np.array([args["x0"]]), np.array([args["p0"]]), 0, dt=dt, max_steps=k, seed_sequence=5, **kw)
+        log = first.simulate()
+        n0 = len(log)
+        r = mudslide.Ehrenfest.restart(model, log, max_steps=K)
+        if type(r).__name__ != "Ehrenfest":
+            problems.append("Ehrenfest.restart returned a %s" % type(r).__name__)
+        tr = r.simulate()
+        snaps = list(tr)
+        for s_ in snaps[n0:]:
+            el = mudslide.models.scattering_models[args["model"]](representation=rep).update(np.array(s_["position"], dtype=np.float64))
+            Hm = np.asarray(el.hamiltonian())
+            want = float(np.real(np.trace(np.asarray(s_["density_matrix"]) @ Hm)))
+            # (adiabatic: tr(rho H) does not depend on the eigenvector signs - H is diagonal there)
+            if abs(want - s_["potential"]) > 1e-9 * (1e-3 + abs(want)):
+                problems.append("t=%r after the restart: logged potential %r, tr(rho H) = %r" % (s_["time"], s_["potential"], want))
+                break
+        if len({s_["active"] for s_ in snaps}) != 1:
+            problems.append("the active label changes after the restart: %r" % sorted({s_["active"] for s_ in snaps}))
+        nh = len(tr.hops) if hasattr(tr, "hops") else 0
+        if nh:
+            problems.append("%d hop events in an Ehrenfest log" % nh)
+        if len(snaps) != K + 1:
+            problems.append("the combined log has %d snapshots, %d expected" % (len(snaps), K + 1))
+    finally:
+        if tmp:
+            shutil.rmtree(tmp, ignore_errors=True)
+    return not problems, {"problems": problems[:3]}, {"problems": []}, "; ".join(problems[:2]) or "ok"
+
+
+ORACLES = {"restart": oracle_restart, "whole_run": rc.oracle_whole_run, "force": oracle_force, "run": oracle_run}
 
 
 def run(ctx):
@@ -196,6 +242,16 @@ def run(ctx):
     rc.run_correspondence(ctx, ctx.budget(8, 200), hops=False, label="ehrun", cls="Ehrenfest")
     # scattering runs on the built-in models that START IN THE ASYMPTOTIC REGION (coupling ~ 1e-40 there) and then cross the
     # coupling region, in the diabatic representation: the logged potential has to be tr(rho H) all the way
+    # stop in a mixed state, restart from the log, continue
+    for i in range(ctx.budget(4, 24)):
+        Kr = int(rng.integers(40, 60))
+        a = dict(model=["simple", "dual"][i % 2], representation=["adiabatic", "diabatic"][(i // 2) % 2], x0=-1.5, p0=float(rng.uniform(10, 25)),
+                 dt=10.0, K=Kr, k=int(rng.integers(15, 30)), store=["memory", "yaml"][i % 2], pitch=int(rng.integers(2, 9)))
+        ok, obs, req, text = oracle_restart(a)
+        ctx.case(("restart", a["model"], a["representation"], a["store"]))
+        ctx.count("ehrenfest_restarts")
+        if not ok:
+            ctx.oracle_fail("ehrenfest-restart", "restart", a, obs, req, text)
     for i in range(ctx.budget(2, 12)):
         spec = dict(builtin=["simple", "dual", "extended"][i % 3], N=2, n=1, model_seed=1, x0=[-10.0], p0=[float(rng.uniform(10, 25))], state=0,
                     dt=20.0, steps=int(rng.integers(80, 140)), integ=["exp", "linear-rk4"][i % 2], representation="diabatic")
